@@ -1,17 +1,20 @@
 #!/bin/bash
 # Runs every sensitivity patch in /verif/mutants (name prefix = property, e.g. c06-*.patch) through
-# tools/mutation_check.sh and writes mutants/MATRIX.md. usage: tools/run_mutants.sh [--budget-s N] [pattern]
-BUDGET=15; PAT="*"
-while [ $# -gt 0 ]; do case $1 in --budget-s) BUDGET=$2; shift;; *) PAT=$1;; esac; shift; done
+# tools/mutation_check.sh and writes mutants/MATRIX.md. usage: tools/run_mutants.sh [--budget-s N] [--jobs J] [pattern]
+# (builds serialise on the build cache lock; J mutants are checked at a time)
+BUDGET=15; PAT="*"; JOBS=3
+while [ $# -gt 0 ]; do case $1 in --budget-s) BUDGET=$2; shift;; --jobs) JOBS=$2; shift;; *) PAT=$1;; esac; shift; done
 cd /verif
 OUT=mutants/MATRIX.md
-TMP=$(mktemp)
-for f in mutants/$PAT.patch; do
-  n=$(basename $f .patch); p=$(echo ${n%%-*} | tr a-z A-Z)
+TMP=$(mktemp -d)
+one() {
+  f=$1; n=$(basename $f .patch); p=$(echo ${n%%-*} | tr a-z A-Z)
   r=$(tools/mutation_check.sh $f $p --budget-s $BUDGET 2>&1)
   verdict=$(echo "$r" | grep -oE "^(DETECTED|MISSED|HARNESS-ERROR|PATCH-FAILED|BASELINE-TESTS-FAIL)" | tail -1)
   cls=$(echo "$r" | grep -oE "class=[^ ]+" | head -1)
-  echo "| $n | $p | ${verdict:-?} | ${cls#class=} |" | tee -a $TMP
-done
-{ echo "# Sensitivity matrix (tools/run_mutants.sh, quick budget ${BUDGET}s per mutant)"; echo; echo "| mutant | property check | verdict | first violation class |"; echo "|---|---|---|---|"; sort $TMP; } > $OUT
-rm -f $TMP
+  echo "| $n | $p | ${verdict:-?} | ${cls#class=} |" | tee $TMP/$n.row
+}
+export -f one; export BUDGET TMP
+ls mutants/$PAT.patch | xargs -P $JOBS -I{} bash -c 'one {}'
+{ echo "# Sensitivity matrix (tools/run_mutants.sh, quick budget ${BUDGET}s per mutant, $JOBS at a time)"; echo; echo "| mutant | property check | verdict | first violation class |"; echo "|---|---|---|---|"; cat $TMP/*.row | sort; } > $OUT
+rm -rf $TMP
